@@ -29,7 +29,7 @@ def run(ck):
         if len(g["vals"]) >= 7:
             groups.append({"vals": g["vals"], "C": 12, "orc": 0, "calls": [pcall("bc", "list")]})
     fam = gen.pack_families(ck.rng, 400 if q else 30000, maxn=12 if q else 14)
-    for g in fam + WITNESS + gen.near_miss_families(ck.rng, 60 if q else 600, cover=False):
+    for g in fam + WITNESS + gen.near_miss_families(ck.rng, 60 if q else 600, cover=False, giga=True):
         g = dict(g); g["orc"] = 0
         g["calls"] = [pcall(a, "list") for a in PACKERS]
         g["watchdog"] = 20
